@@ -45,9 +45,9 @@ Lemma gen_fold_keystr b : fold_keystr b = fold_byte b. Proof. apply mk_fold_spec
 Lemma gen_fold_keypfx b : fold_keypfx b = fold_byte b. Proof. apply mk_fold_spec. Qed.
 Lemma gen_fold_wwn b : fold_wwn b = fold_byte b.       Proof. apply mk_fold_spec. Qed.
 Lemma gen_fold_wep b : fold_wep b = fold_byte b.       Proof. apply mk_fold_spec. Qed.
-Lemma gen_fold_enf_a b : fold_enf_a b = fold_byte b.   Proof. apply mk_fold_spec. Qed.
-Lemma gen_fold_enf_b b : fold_enf_b b = fold_byte b.   Proof. apply mk_fold_spec. Qed.
-Lemma gen_fold_fwn b : fold_fwn b = fold_byte b.       Proof. apply mk_fold_spec. Qed.
+Lemma gen_fold_enf_a b : fold_enf_a b = fold_byte b.   Proof. reflexivity. Qed.
+Lemma gen_fold_enf_b b : fold_enf_b b = fold_byte b.   Proof. reflexivity. Qed.
+Lemma gen_fold_fwn b : fold_fwn b = fold_byte b.       Proof. reflexivity. Qed.
 (* KeySimple (benchmark helper) folds the same way *)
 Lemma gen_fold_keysimple : (keysimple_fold_lo, keysimple_fold_hi, keysimple_fold_delta) = (65, 90, 32).
 Proof. reflexivity. Qed.
@@ -503,15 +503,15 @@ Qed.
 Lemma equal_name_ascii_fold_spec a b : equal_name_ascii_fold a b = true <-> fold a = fold b.
 Proof.
   revert b. induction a as [|x xs IH]; intros [|y ys]; cbn; split; intros Hx; try discriminate; try reflexivity.
-  - rewrite gen_fold_enf_a, gen_fold_enf_b in Hx. apply andb_prop in Hx. destruct Hx as [H1 H2].
+  - rewrite ?gen_fold_enf_a, ?gen_fold_enf_b in Hx. apply andb_prop in Hx. destruct Hx as [H1 H2].
     apply N.eqb_eq in H1. apply IH in H2. unfold fold in H2. rewrite H1, H2. reflexivity.
-  - inversion Hx as [[H1 H2]]. rewrite gen_fold_enf_a, gen_fold_enf_b, H1, N.eqb_refl. cbn. apply IH. exact H2.
+  - inversion Hx as [[H1 H2]]. rewrite ?gen_fold_enf_a, ?gen_fold_enf_b, H1, N.eqb_refl. cbn. apply IH. exact H2.
 Qed.
 
 Lemma fold_wire_names_equal_spec a b : fold_wire_names_equal a b = true <-> fold a = fold b.
 Proof.
   revert b. induction a as [|x xs IH]; intros [|y ys]; cbn; split; intros Hx; try discriminate; try reflexivity.
-  - rewrite !gen_fold_fwn in Hx. apply andb_prop in Hx. destruct Hx as [H1 H2].
+  - rewrite ?gen_fold_fwn in Hx. apply andb_prop in Hx. destruct Hx as [H1 H2].
     apply N.eqb_eq in H1. apply IH in H2. unfold fold in H2. rewrite H1, H2. reflexivity.
-  - inversion Hx as [[H1 H2]]. rewrite !gen_fold_fwn, H1, N.eqb_refl. cbn. apply IH. exact H2.
+  - inversion Hx as [[H1 H2]]. rewrite ?gen_fold_fwn, H1, N.eqb_refl. cbn. apply IH. exact H2.
 Qed.
